@@ -207,6 +207,27 @@ class Deriv:
                 kids[j] = t
                 yield j, t.prod, Node(prod, kids)
 
+    def paren_trees(self, prod):
+        """trees of `prod` in which ONE nonterminal child is a PARENTHESISING production of its nonterminal (LPAREN X RPAREN, one nonterminal
+        X) whose X is expanded by each production of X, the others shortest: every (parent production, parenthesised child production)
+        triple - what user-written parentheses are there to keep apart"""
+        syms = [str(s) for s in prod.prod]
+        base = [s if s in self.terms else (self.best(s) if s in self._best else None) for s in syms]
+        if any(b is None for b in base):
+            return
+        for j, s in enumerate(syms):
+            if s in self.terms:
+                continue
+            for w in self.by_name.get(s, []):
+                ws = [str(x) for x in w.prod]
+                nts = [x for x in ws if x not in self.terms]
+                if len(nts) != 1 or ws[0] != 'LPAREN' or ws[-1] != 'RPAREN' or len(ws) != 3:
+                    continue
+                for t in self.production_trees(nts[0]):
+                    kids = list(base)
+                    kids[j] = Node(w, [x if x in self.terms else t for x in ws])
+                    yield j, w, t.prod, Node(prod, kids)
+
     def root_trees(self, prod, picks):
         """the derivation tree of `prod` whose i-th nonterminal child uses alternative picks[i] (0 = shortest)"""
         kids, j = [], 0
